@@ -386,7 +386,7 @@ def cases(tier, seed):
             for lim in (0.0, 0.125, 0.25, 0.5, 2.0, {"a": 0.125}, {"a": 0.25, "c": 0.125}):
                 out.append(("limitdeltas", held, tw, lim))
     for tname in tables:
-        for w in ({"a": 1.0}, {"a": 0.5, "b": 0.5}, {"a": 0.25, "b": 0.25, "c": 0.5}, {"a": 0.75, "b": -0.25}):
+        for w in ({"a": 1.0}, {"a": 0.5, "b": 0.5}, {"a": 0.25, "b": 0.25, "c": 0.5}, {"a": 0.75, "b": -0.25}, {"c": 0.5, "a": 0.25, "b": 0.25}, {"c": 0.75, "a": 0.25}, {"b": 0.125, "a": 0.875}):
             for now_i in nows:
                 for lb in lbs:
                     for lag in lags[:2]:
